@@ -13,6 +13,12 @@ Every op line names ONE call of a dual-path API.  `both(line)` executes it twice
   guard.<site>   the GENERATED delegation guards (tools/specs/backend.py → Generated/Backend.lean) against the
                  real code: the bindings are wrapped by a spy and "were the bindings called" is compared with the
                  generated guard evaluated on the input's atoms.
+  refusal.class  the rows of `Btc.C04.refusalTable` (lean/Model/C04/Refusal.lean): the class's representative on the Python
+                 arm against the row's `py`, on the bindings arm against the GENERATED handlers unwound (T4).
+
+Observation layer (harness/c04_sites.py, on for the whole run): every public callable of `btclib._libsecp256k1` is wrapped
+(found by introspection), and every function of the generated dispatch inventory reports when it is entered; oracles
+`site_reach`, `off_arm_silent`, `held_object` read it.
 """
 from __future__ import annotations
 
@@ -34,6 +40,7 @@ from btclib.script import taproot
 from btclib.script.engine import script as eng_script
 from btclib.script.engine import tapscript as eng_tapscript
 
+from . import c04_sites as sites
 from . import common
 from .common import hx, unhx
 
@@ -52,7 +59,11 @@ TRUSTED = ["the C library libsecp256k1 and its cffi bindings: compared on the ex
            "verdict.* streams (one representative per class); completeness of the class lattice is argued from "
            "the branch conditions in Props/C04.lean comments",
            "tools/specs/backend.py AST pattern matcher (guards validated against observed delegation by the "
-           "guard.* streams: bindings wrapped by a spy)"]
+           "guard.* streams: bindings wrapped by a spy; handler actions by the refusal.class stream; the package-wide "
+           "inventory by name matching: a delegation reached through a name it does not know -- getattr, a re-export "
+           "under another module -- would escape it, and then also escapes the site_reach accounting)",
+           "Model/C04/Refusal.lean: the Python-arm column of the refusal table is hand-written (tied per row by "
+           "refusal.class on the real code); `site_reach` exemptions are listed with reasons in harness/c04_sites.py"]
 ASSUMPTIONS = ["agreement of the C arm with the model is established on the explored inputs only"]
 
 N = secp256k1.n
@@ -316,10 +327,16 @@ def both(line: str) -> tuple[str, str]:
     """(bindings-arm answer, Python-arm answer) of one op line"""
     got = _BOTH.get(line)
     if got is None:
+        R = sites.REACH
         with arm(True):
+            R.begin()
             a = run_line(line)
+            on = R.end()
         with arm(False):
+            R.begin()
             b = run_line(line)
+            off = R.end()
+        R.account(line, a, b, on, off)
         got = (a, b)
         if len(_BOTH) < 200000:
             _BOTH[line] = got
@@ -332,6 +349,8 @@ def impl(line: str) -> str:
         return _impl_verdict(line)
     if line.startswith("guard "):
         return _impl_guard(line)
+    if line.startswith("refusal "):
+        return _impl_refusal(line)
     return both(line)[1]
 
 
@@ -966,6 +985,74 @@ def s_bms(ctx, rng):
         dual(ctx, api, lines)
 
 
+def _bms_mirror(rf, r, s_):
+    """the other valid form of a message signature: (r, n - s) and the parity bit of the key_id flipped"""
+    return 27 + 4 * ((rf - 27) // 4) + (((rf - 27) % 4) ^ 1), r, N - s_
+
+
+def _b64sig(rf, r, s_):
+    import base64  # noqa: PLC0415
+    return base64.b64encode(bytes([rf]) + r.to_bytes(32, "big") + s_.to_bytes(32, "big")).decode()
+
+
+def s_bms_flags(ctx, rng):
+    """message signatures of EVERY recovery-flag class (27-30 uncompressed p2pkh, 31-34 compressed p2pkh, 35-38
+    p2wpkh-p2sh, 39-42 p2wpkh; both key_id parities of each) in BOTH valid forms (low s as `bms.sign` makes it, and its
+    high-s mirror with the parity bit flipped), through sign / assert_as_valid / verify on both arms.  Independent
+    expectation (oracle `bms.flags.honest_verifies`): both forms verify True on BOTH arms — the SEC 1 equation holds and
+    the flag's key_id recovers the signer's key; the same (r, s) is also checked with `dsa` on the Python arm under the
+    key the Python ladder computes.  Then every one of the 16 flags is put on each form (cross-class: Electrum-style
+    31-34 on segwit addresses, a segwit flag on a p2pkh address, the wrong parity): the arms must agree."""
+    from btclib import b32, b58  # noqa: PLC0415
+    from btclib.hashes import magic_message, reduce_to_hlen  # noqa: PLC0415
+    L = {k: [] for k in ("bms.sign", "bms.assert", "bms.verify")}
+    seen: dict[tuple, int] = {}
+    need = {(k, par, form) for k in ("p2pkh_u", "p2pkh_c", "p2wpkh_p2sh", "p2wpkh") for par in (0, 1) for form in ("low", "high")}
+    tries = 0
+    while tries < ctx.n(60, 1200) and (tries < ctx.n(24, 400) or not need <= set(seen)):
+        tries += 1
+        q = g_scalar(rng)
+        kind = rng.choice(["p2pkh_u", "p2pkh_c", "p2wpkh_p2sh", "p2wpkh"])
+        compressed = kind != "p2pkh_u"
+        wif = b58.wif_from_prv_key(q, "mainnet", compressed)
+        wif = wif if isinstance(wif, str) else wif.decode()
+        addr = {"p2pkh_u": b58.p2pkh, "p2pkh_c": b58.p2pkh, "p2wpkh_p2sh": b58.p2wpkh_p2sh, "p2wpkh": b32.p2wpkh}[kind](wif)
+        addr = addr if isinstance(addr, str) else addr.decode()
+        msg = common.rand_bytes(rng, rng.choice([0, 1, 12, 32, 100]))
+        L["bms.sign"].append(f"dual.bms.sign {hx(msg)} {wif} {addr}")
+        with arm(False):
+            sig = bms.sign(msg, wif, addr)
+            Qpy = _curve.mult(q)
+        low = (sig.rf, sig.dsa_sig.r, sig.dsa_sig.s)
+        for form, (rf, r_, s_) in (("low", low), ("high", _bms_mirror(*low))):
+            cls = (kind, (rf - 27) % 2, form)
+            seen[cls] = seen.get(cls, 0) + 1
+            ctx.count("bms.flags", f"{kind}|rf={rf}|{form}_s")
+            b64 = _b64sig(rf, r_, s_)
+            ln = f"dual.bms.verify {hx(msg)} {addr} {b64}"
+            L["bms.verify"].append(ln)
+            L["bms.assert"].append(f"dual.bms.assert {hx(msg)} {addr} {b64}")
+            a, b = both(ln)
+            # independent of bms: the same (r, s) under the signer's key, by dsa on the Python arm
+            with arm(False):
+                ind = canon(lambda: dsa.assert_as_valid_(reduce_to_hlen(magic_message(msg)), Qpy, dsa.Sig(r_, s_, EC)))
+            ctx.oracle("bms.flags.honest_verifies", a == "ok True" and b == "ok True" and ind == "ok None",
+                       f"{kind} rf={rf} {form}-s message signature of an honest signer: bindings arm -> {a}, Python arm -> {b}, "
+                       f"dsa on the Python arm under the signer's key -> {ind}; `{ln}`",
+                       key="bms.flags.honest_verifies", witness={"oracle": "dual", "witness": ln})
+            # every flag on this (r, s): cross-class and wrong-parity included
+            for rf2 in range(27, 43):
+                if rf2 != rf:
+                    L["bms.verify"].append(f"dual.bms.verify {hx(msg)} {addr} {_b64sig(rf2, r_, s_)}")
+                    if tries <= 6:
+                        L["bms.assert"].append(f"dual.bms.assert {hx(msg)} {addr} {_b64sig(rf2, r_, s_)}")
+    missing = sorted(need - set(seen))
+    ctx.oracle("bms.flags.coverage", not missing, f"recovery-flag classes never generated: {missing}", key="bms.flags.coverage",
+               witness={"oracle": "dual", "witness": "coverage"}, nontrivial=False)
+    for api, lines in L.items():
+        dual(ctx, api + ".flags", lines)
+
+
 def s_bip32(ctx, rng):
     L = []
     H = 0x80000000
@@ -1515,39 +1602,108 @@ def _o_switch(w):
 ORACLES["switch"] = _o_switch
 
 
-def _o_held_object(w):
-    """objects that capture the arm at construction (`dsa.Signer`, `ssa.Signer`, `_TweakChain`): built under one setting,
-    used under the other, their answers must equal both arms' (the C04 property; what they CALL is not the point)"""
+def _o_held_object(w):  # noqa: PLR0911, PLR0912, PLR0915
+    """objects that hold a bindings-side object from construction (`dsa.Signer`, `ssa.Signer`, `_TweakChain`), built under
+    one setting of the switch and used across a HISTORY of flips (`w["flips"]`, the setting before each use).
+
+    (1) ANSWERS: every signature is verified INDEPENDENTLY — on the Python arm, under the public key the Python ladder
+        computes from q, for `verify=True` and `verify=False` alike — and equals the free function's; every chain point
+        equals `((q + t) mod n)·G` computed by the Python ladder.
+    (2) DISPATCH, observed by wrappers on EVERY public callable of `btclib._libsecp256k1` (harness/c04_sites.py): a use
+        calls into the bindings iff the object still holds its bindings-side object OR the switch is on at that moment —
+        built serving ⇒ keeps delegating after `serving=False`; built NOT serving ⇒ holds nothing and its use re-asks the
+        switch, so after `serving=True` the bindings ARE called; built not serving and used not serving ⇒ no entry point
+        is called at all.  A `_TweakChain` drops its chain on a cancelling tweak and from then on follows the switch."""
     initial = _curve.is_libsecp256k1_serving()
     msg, q, aux, ts = unhx(w["msg"]), w["q"], unhx(w["aux"]), w["tweaks"]
+    flips = [bool(x) for x in w.get("flips") or []]
+    R = sites.REACH
+    own = None
+    if not R.active:
+        own = sites.BindingSpy()
+        own.install()
+    spy_ = own or R.spy
     try:
-        want = {}
-        for srv in (True, False):
-            with arm(srv):
-                want[srv] = (canon(lambda: dsa.sign_(msg, q).serialize()), canon(lambda: ssa.sign_(msg, q, aux).serialize()),
-                             canon(lambda: [_curve._tweak_add_var(_curve.mult(q), t, EC) for t in ts]))
-        if want[True] != want[False]:
-            return False, f"free functions differ between the arms: {want[True]} / {want[False]}"
+        with arm(False):
+            spy_.window()
+            Qpy = _curve.mult(q)
+            want_pts = [_curve.mult((q + t) % N) for t in ts]
+            want_dsa = {g: canon(lambda g=g: dsa.sign_(msg, q, grind=g).serialize()) for g in (True, False)}
+            want_ssa = canon(lambda: ssa.sign_(msg, q, aux).serialize())
+            if spy_.window():
+                return False, "the Python arm called into the bindings while computing the references"
+        with arm(True):
+            lib = ({g: canon(lambda g=g: dsa.sign_(msg, q, grind=g).serialize()) for g in (True, False)},
+                   canon(lambda: ssa.sign_(msg, q, aux).serialize()))
+        if lib != (want_dsa, want_ssa):
+            return False, f"free functions differ between the arms: {lib} / {(want_dsa, want_ssa)}"
+
+        def verified(kind, sig_hex):
+            with arm(False):
+                try:
+                    if kind == "dsa":
+                        dsa.assert_as_valid_(msg, Qpy, unhx(sig_hex))
+                    else:
+                        ssa.assert_as_valid_(msg, Qpy[0].to_bytes(32, "big"), unhx(sig_hex))
+                except Exception as e:  # noqa: BLE001
+                    return f"{type(e).__name__}: {e}"
+            return None
+
         for built in (True, False):
             _curve.set_libsecp256k1_serving(serving=built)
-            ds, ss_, ch = dsa.Signer(q), ssa.Signer(q), _curve._TweakChain(_curve.mult(q), EC)
+            ds, ss_, ch = dsa.Signer(q), ssa.Signer(q), _curve._TweakChain(Qpy, EC)
             holds = (ds._pub_key_sec is not None, ss_._signer is not None, ch._chain is not None)
             if holds != (built, built, built):
                 return False, f"built with serving={built}: holds bindings objects {holds}"
-            _curve.set_libsecp256k1_serving(serving=not built)
-            got = (canon(lambda: ds.sign_(msg)), canon(lambda: ss_.sign_(msg, aux)), canon(lambda: [ch.point(t) for t in ts]))
-            if got != want[True]:
-                return False, (f"objects built with serving={built} and used with serving={not built} answer {got}, "
-                               f"the arms answer {want[True]}")
-            # the switch does not reach the object: it still dispatches as built (recorded, not required)
-            with spy(dsa, "_delegated_sign_") as hit:
-                ds.sign_(msg)
-            if bool(hit) != built:
-                return False, f"dsa.Signer built with serving={built}: delegates={bool(hit)} after the switch"
+            for step, flag in enumerate([not built] + flips):
+                _curve.set_libsecp256k1_serving(serving=flag)
+                where = f"built serving={built}, use {step} under serving={flag} (history {[not built] + flips})"
+                for grind in (True, False):
+                    for verify in (True, False):
+                        held = ds._pub_key_sec is not None
+                        spy_.window()
+                        got = canon(lambda g=grind, v=verify: ds.sign_(msg, grind=g, verify=v))
+                        hits = spy_.window()
+                        if got != want_dsa[grind]:
+                            return False, f"dsa.Signer {where} grind={grind} verify={verify}: {got}, the free function answers {want_dsa[grind]}"
+                        bad = verified("dsa", got[3:])
+                        if bad:
+                            return False, f"dsa.Signer {where} verify={verify}: signature does not verify on the Python arm: {bad}"
+                        if bool(hits) != (held or flag):
+                            return False, (f"dsa.Signer {where}: holds={held}, bindings entry points called: "
+                                           f"{sorted({h[0] for h in hits})}; expected {'some' if held or flag else 'none'}")
+                for verify in (True, False):
+                    held = ss_._signer is not None
+                    spy_.window()
+                    got = canon(lambda v=verify: ss_.sign_(msg, aux, verify=v))
+                    hits = spy_.window()
+                    if got != want_ssa:
+                        return False, f"ssa.Signer {where} verify={verify}: {got}, the free function answers {want_ssa}"
+                    bad = verified("ssa", got[3:])
+                    if bad:
+                        return False, f"ssa.Signer {where} verify={verify}: signature does not verify on the Python arm: {bad}"
+                    if bool(hits) != (held or flag):
+                        return False, (f"ssa.Signer {where}: holds={held}, bindings entry points called: "
+                                       f"{sorted({h[0] for h in hits})}; expected {'some' if held or flag else 'none'}")
+                for t, wp in zip(ts, want_pts):
+                    held = ch._chain is not None
+                    spy_.window()
+                    got = canon(lambda t=t: ch.point(t))
+                    hits = spy_.window()
+                    exp = canon(lambda wp=wp: wp)
+                    if mcanon("tweakchain", got) != mcanon("tweakchain", exp):
+                        return False, f"_TweakChain {where} point({t}): {got}, the Python ladder gives {exp}"
+                    if bool(hits) != (held or flag):
+                        return False, (f"_TweakChain {where} point({t}): holds={held}, bindings entry points called: "
+                                       f"{sorted({h[0] for h in hits})}; expected {'some' if held or flag else 'none'}")
+                    if (q + t) % N == 0 and ch._chain is not None:
+                        return False, f"_TweakChain {where}: still holds its chain after the cancelling tweak {t}"
             ds.wipe()
             ss_.wipe()
-        return True, "answers independent of the arm captured at construction"
+        return True, "answers verified independently; dispatch = holds-or-serving"
     finally:
+        if own is not None:
+            own.uninstall()
         _curve.set_libsecp256k1_serving(serving=initial)
 
 
@@ -1566,7 +1722,8 @@ def s_switch(ctx, rng):
         qh = g_scalar(rng)
         ts = [rng.choice([0, 1, N - qh, g_scalar(rng), N, -qh]) for _ in range(rng.randrange(1, 5))]
         ctx.check("held_object", {"msg": (digs[i][1] if i < len(digs) else common.rand_bytes(rng, 32)).hex(), "q": qh,
-                                  "aux": common.rand_bytes(rng, 32).hex(), "tweaks": ts})
+                                  "aux": common.rand_bytes(rng, 32).hex(), "tweaks": ts,
+                                  "flips": [rng.getrandbits(1) for _ in range(rng.randrange(0, 4))]})
 
 
 # ------------------------------------------------------------------ T2: verdict tables against the real code
@@ -1580,8 +1737,7 @@ def _impl_verdict(line: str) -> str:
     rep = _VREP.get(" ".join([api] + toks[3:]))
     if rep is None:
         return "no-representative"
-    with arm(arm_ == "bind"):
-        out = run_line(rep)
+    out = both(rep)[0 if arm_ == "bind" else 1]   # through `both`: the representative is accounted to the sites it enters
     if out.startswith("err foreign"):
         return "err foreign"
     if api == "eng.tx" and out == "err script":
@@ -1781,6 +1937,72 @@ def s_verdict(ctx, rng, register_only=False):  # noqa: PLR0912, PLR0915
         ctx.exhaustive_streams.append(f"verdict.{api}")
 
 
+def s_hostile_extra(ctx, rng):
+    """hostile inputs for the sites the `site_reach` oracle found reached by valid inputs only"""
+    L = []
+    for _cls, pt in point_lattice(rng):
+        ts = ",".join(str(rng.choice([0, 1, g_scalar(rng), N, -1])) for _ in range(3))
+        L.append(f"dual.tweakchain {pt[0]} {pt[1]} {ts}")
+    dual(ctx, "tweakchain.hostile", L)
+    L = []
+    for _ in range(ctx.n(6, 60)):
+        q, msg = g_scalar(rng), common.rand_bytes(rng, rng.choice([0, 31, 32, 33]))
+        for aux in (common.rand_bytes(rng, 31), common.rand_bytes(rng, 33), b""):
+            L.append(f"dual.ssa.signer {hx(msg)} {q} {hx(aux) or '-'} {rng.choice('01')}")
+    dual(ctx, "ssa.signer.hostile", L)
+
+
+# ------------------------------------------------------------------ T4: refusal classes — the GENERATED handlers against the real code
+_RROWS: dict[str, tuple] = {}    # row index -> (site, atom, class key)
+_REXERCISED: dict[str, bool] = {}
+
+
+def _impl_refusal(line: str) -> str:
+    _tag, i, arm_ = line.split(" ")
+    row = _RROWS.get(i)
+    if row is None:
+        return "no-row"
+    api, _, rest = row[2].partition(" ")
+    out = _impl_verdict(f"verdict {api} {arm_} {rest}")
+    if arm_ == "bind":
+        _REXERCISED[i] = sites.REACH.c_refused_lines.get(_VREP.get(row[2]))
+    return out
+
+
+def s_refusal(ctx, rng, register_only=False):
+    """every row of `Btc.C04.refusalTable` (site, way of being outside the C entry point's domain, class of the T2 lattice):
+    the class's representative on the Python arm against the row's `py`, and on the bindings arm against
+    `refusalOutcome` = the GENERATED handlers unwound.  `exercised`: the C call really raised ValueError under it."""
+    import random  # noqa: PLC0415
+    rng = random.Random(f"refusal/{ctx.seed}")
+    out = ctx.model(EXE, ["refusals"])
+    if not out or not out[0].startswith("ok "):
+        ctx.broken.append("driver does not serve `refusals`")
+        return
+    if not _VREP:
+        s_verdict(ctx, None, register_only=True)
+    nx = non_x(rng)
+    Q = g_point(rng)
+    _VREP["mmultx notX"] = f"dual.mmultx {g_scalar(rng)} {Q[0]} {g_scalar(rng)} {nx}"
+    _VREP["multsec xNotOnCurve"] = f"dual.multsec {hx(b'\x02' + nx.to_bytes(32, 'big'))} {g_scalar(rng)}"
+    _VREP["multsec gtN"] = f"dual.multsec {hx(sec_of(Q))} {N + rng.randrange(1, N)}"
+    _VREP["yeven notX"] = f"dual.yeven {nx}"
+    lines = []
+    for ent in out[0][3:].split(";"):
+        i, site, atom, cls = ent.split("|")
+        _RROWS[i] = (site, atom, cls)
+        if cls not in _VREP:
+            ctx.broken.append(f"refusal row {i} ({site}, {atom}): no representative for class `{cls}`")
+            continue
+        lines += [f"refusal {i} py", f"refusal {i} bind"]
+    if register_only:
+        return
+    ctx.stream("refusal.class", lines, nontrivial=lambda _l, o: True)
+    ctx.exhaustive_streams.append("refusal.class")
+    for i, (site, atom, cls) in _RROWS.items():
+        ctx.count("refusal.exercised", f"{site}|{atom}|{cls}|C-call-raised={_REXERCISED.get(i)}")
+
+
 # ------------------------------------------------------------------ T1: generated guards against observed delegation
 class _Proxy:
     def __init__(self, target, attr, hit):
@@ -1974,6 +2196,8 @@ def replay(ctx, rec):
         s_verdict(sub, None, register_only=True)
     elif line.startswith("guard "):
         s_guard(sub, None, register_only=True)
+    elif line.startswith("refusal "):
+        s_refusal(sub, None, register_only=True)
     out = ctx.model(EXE, [line])
     got = impl(line)
     res.update(op_line=line, impl=got, model=out[0] if out else None)
@@ -1986,15 +2210,23 @@ def run(ctx):
     initial = _curve.is_libsecp256k1_serving()
     t0 = time.time()
     try:
+        if ctx.driver_ok:
+            # observation layer: wrappers on every bindings entry point + entry events on every function of the generated inventory
+            sites.REACH.__init__()
+            sites.REACH.start(sites.inventory_from_driver(ctx, EXE))
         for name, f in (("fixed", lambda: s_fixed(ctx)), ("curve", lambda: s_curve(ctx, rng)), ("sec", lambda: s_sec(ctx, rng)),
                         ("dsa", lambda: s_dsa(ctx, rng)), ("ssa", lambda: s_ssa(ctx, rng)), ("bms", lambda: s_bms(ctx, rng)),
+                        ("bms.flags", lambda: s_bms_flags(ctx, rng)),
                         ("bip32", lambda: s_bip32(ctx, rng)), ("taproot", lambda: s_taproot(ctx, rng)), ("misc", lambda: s_misc(ctx, rng)),
                         ("musig", lambda: s_musig(ctx, rng)), ("sp", lambda: s_sp(ctx, rng)), ("engine", lambda: s_engine(ctx, rng)),
-                        ("switch", lambda: s_switch(ctx, rng)), ("verdict", lambda: s_verdict(ctx, rng)),
+                        ("switch", lambda: s_switch(ctx, rng)), ("hostile", lambda: s_hostile_extra(ctx, rng)),
+                        ("verdict", lambda: s_verdict(ctx, rng)), ("refusal", lambda: s_refusal(ctx, rng)),
+                        ("reach", lambda: sites.report(ctx) if sites.REACH.active else None),
                         ("guard", lambda: s_guard(ctx, rng))):
             t = time.time()
             f()
             ctx.count("seconds", name, round(time.time() - t, 1))
     finally:
+        sites.REACH.stop()
         _curve.set_libsecp256k1_serving(serving=initial)
     ctx.note(f"harness time {time.time() - t0:.1f}s")
